@@ -7,6 +7,7 @@ from pyvc.values import *   # noqa
 from pyvc import values
 from pyvc.values import J, OJ
 from pyvc.interp import VJsonDict
+from pyvc.models import uf
 from .common import make_registry, install_trace_funcs, register_classes
 
 PROP = "C20"
@@ -20,6 +21,14 @@ values.NT_DEFS["RelayV1Hint"] = [("hints", f"seq[{HINT}]")]
 OPTHINT = "union[none,nt[DirectTCPV1Hint],nt[TorTCPV1Hint]]"
 ANYHINT = "union[none,nt[DirectTCPV1Hint],nt[TorTCPV1Hint],nt[RelayV1Hint]]"
 SOMEHINT = "union[nt[DirectTCPV1Hint],nt[TorTCPV1Hint],nt[RelayV1Hint]]"
+
+
+DEFERRED = "opaque[Deferred]"
+CON = "wormhole/_dilation/connector.py:Connector."
+CONNECTOR_FIELDS = {"_tor": "opt[obj[Tor]]", "_reactor": "obj[Reactor]", "_no_listen": "bool", "_manager": "obj[ManagerB]",
+                    "_pending_connectors": f"set[{DEFERRED}]", "_dilation_key": "bytes", "_side": "str",
+                    "_pending_connections": "obj[EmptyableSetB]"}
+SUPPORTED = "(isinstance({h}, DirectTCPV1Hint) or (self._tor is not None and isinstance({h}, TorTCPV1Hint)))"
 
 
 def _valid_fields(items):
@@ -61,7 +70,26 @@ def regf():
     register_classes(reg, ["wormhole/errors.py", "wormhole/_dilation/connector.py"])
     for c in CONTRACTS:
         reg.contracts[c.target] = c
+    install_hint_support(reg)
+    reg.func_models["wormhole/util.py:HKDF"] = lambda it, args, kw, fr: it.fresh("bytes", "hkdf")
+    reg.input_as_boundary = True
+    return reg
+
+
+def install_hint_support(reg):
+    """spec functions over hint objects, the sorted()/defaultdict/endpoint/deferLater models: shared with props/c07.py
+    (Common._connect consumes the parsed hints)"""
     sf = reg.spec_funcs
+    generic = {k: sf.get(k) for k in ("n_calls", "is_method_of", "iter_n_calls", "iter_call_arg", "n_events")}
+
+    def call_result(it, suffix, k=None):
+        """result of the k-th contract-applied call whose target ends with suffix; None when there is no such call (the clause
+        that uses it also counts the calls, so it is then false, not an error)"""
+        evs = [e for e in it.ctx.trace if e[0] == "callret" and e[1][0].endswith(it.concrete(suffix))]
+        k = it.concrete(k) if k is not None else 0
+        return evs[k][1][1] if k < len(evs) else NONE
+
+    sf["call_result"] = call_result
     sf["valid_hint"] = lambda it, h: VBool(_valid_tcp(h))
     sf["valid_any_hint"] = lambda it, h: VBool(_valid_any(h))
     sf["all_valid"] = lambda it, s: VBool(_valid_seq(s))
@@ -124,13 +152,77 @@ def regf():
                             z3.Or(z3.Not(has("priority")), J.is_jint(fld("priority")), J.is_jreal(fld("priority")))))
 
     sf["wellformed_tcp"] = wellformed_tcp
+    sf["n_calls"] = lambda it, suffix: VInt(sum(1 for e in it.ctx.trace if e[0] == "call" and e[1][0].endswith(it.concrete(suffix))))
+    sf["new_deferred"] = lambda it: [e for e in it.ctx.trace if e[0] == "new-deferred"][-1][1][0]
+
+    def is_method_of(it, f, recv, meth):
+        f, recv = it.force(f), it.force(recv)
+        if isinstance(f, VFunc) and f.bound is not None and f.name == it.concrete(meth):
+            return VBool(it.same(it.force(f.bound), recv))
+        return VBool(False)
+
+    sf["is_method_of"] = is_method_of
+    def _since_iter(it):
+        tr = it.ctx.trace
+        start = max([i for i, e in enumerate(tr) if e[0] == "loop-body-start"] + [-1])
+        return tr[start + 1:]
+
+    def iter_n_calls(it, suffix):
+        return VInt(sum(1 for e in _since_iter(it) if e[0] == "call" and e[1][0].endswith(it.concrete(suffix))))
+
+    def iter_call_arg(it, suffix, k, i):
+        evs = [e for e in _since_iter(it) if e[0] == "call" and e[1][0].endswith(it.concrete(suffix))]
+        k, i = it.concrete(k), it.concrete(i)
+        return evs[k][1][1][i] if k < len(evs) else NONE
+
+    sf["iter_n_calls"] = iter_n_calls
+    sf["iter_call_arg"] = iter_call_arg
+
+    def buckets_valid(it, m):
+        """every list stored in the priority map holds only parsed Direct/Tor hints"""
+        k = z3.Const("k!bv", sort_of(m.kt))
+        i = z3.Int("i!bv")
+        b = z3.Select(m.val, k)
+        return VBool(z3.ForAll([k, i], z3.Implies(z3.And(z3.Select(m.present, k), 0 <= i, i < z3.Length(b)),
+                                                  _valid_tcp(from_z3(b[i], m.vt.args[0])))))
+
+    def keys_numeric(it, m):
+        k = z3.Const("k!kn", sort_of(m.kt))
+        return VBool(z3.ForAll([k], z3.Implies(z3.Select(m.present, k), z3.Or(J.is_jint(k), J.is_jreal(k)))))
+
+    sf["is_hex16"] = lambda it, x: VBool(z3.InRe(x.z, z3.Loop(z3.Union(z3.Range("0", "9"), z3.Range("a", "f")), 16, 16)))
+    sf["buckets_valid"] = buckets_valid
+    sf["keys_numeric"] = keys_numeric
+
+    def new_defaultdict(it, args, kw):
+        """collections.defaultdict(list) as used by Connector._use_hints: priority (a JSON number) -> list of hint objects"""
+        m = VMap(z3.K(J, z3.BoolVal(False)), z3.K(J, z3.Empty(z3.SeqSort(sort_of(HINT)))), parse_type("json"), parse_type(f"seq[{HINT}]"))
+        m.default_empty = True
+        return m
+
+    reg.ext_models["collections.defaultdict"] = new_defaultdict
+    reg.ext_models["new:DilationHint"] = lambda it, cls, args, kw: it.fresh("opaque[DilationHint]", "dilation_hint")
+
+    def ep_connect(it, recv, meth, args, kwargs, fr):
+        """endpoint.connect(factory): recorded with the endpoint as argument 0; returns a Deferred"""
+        it.ctx.event("bcall", "Endpoint", meth, [recv] + list(args), dict(kwargs))
+        d = it.fresh(DEFERRED, "connect_d")
+        it.ctx.event("new-deferred", d)
+        return d
+
+    reg.boundary["Endpoint.connect"] = ep_connect
+    sf["n_events"] = lambda it, name: VInt(sum(1 for e in it.ctx.trace if e[0] == it.concrete(name)))
 
     def sorted_model(it, args, kw, fr):
         v = it.force(args[0])
         if isinstance(v, (VList, VTuple)) and len(v.items) <= 1:
             return VList(list(v.items))
+        from_set = None
+        if isinstance(v, VMap):
+            v = VSet(v.present, v.kt)        # sorted(d): the keys
         if isinstance(v, VSet):
             from pyvc.models import b_list
+            from_set = v
             v = b_list(it, [v], {}, fr)
         if not isinstance(v, VSeq):
             raise OutOfSubset("sorted() of this value")
@@ -144,6 +236,10 @@ def regf():
                 it.raise_("TypeError", VStr("'<' not supported between instances"))
         elif v.elem.kind == "json":
             allnum = z3.ForAll([i], z3.Implies(z3.And(0 <= i, i < L), z3.Or(J.is_jint(v.z[i]), J.is_jreal(v.z[i]))))
+            if from_set is not None:
+                # sorted(a set): the same condition stated over the members (list(set) has exactly the members)
+                k = z3.Const("k!kn", J)
+                allnum = z3.ForAll([k], z3.Implies(z3.Select(from_set.z, k), z3.Or(J.is_jint(k), J.is_jreal(k))))
             if it.ctx.branch(z3.And(L >= 2, z3.Not(allnum)), "sorted-typeerror"):
                 it.raise_("TypeError", VStr("'<' not supported between instances"))
         r = z3.Const(it.ctx.namer("sorted"), v.z.sort())
@@ -153,13 +249,76 @@ def regf():
         j = z3.Int("j!so")
         it.ctx.assume(z3.ForAll([j], z3.Implies(z3.And(0 <= j, j < L),
                                                 z3.And(0 <= perm(j), perm(j) < L, r[j] == v.z[perm(j)]))))
+        if from_set is not None:
+            # every element of the result is a member of the set (consequence of "same members", stated per index)
+            it.ctx.assume(z3.ForAll([j], z3.Implies(z3.And(0 <= j, j < L), z3.Select(from_set.z, r[j]))))
         it.reg.note("sorted(): result is a same-length sequence with the same members; TypeError possible when two or "
                     "more elements are present and some priority is not a number")
         return VSeq(r, v.elem)
 
     reg.ext_models["sorted"] = sorted_model
-    reg.input_as_boundary = True
-    return reg
+    for k, v in generic.items():
+        if v is not None:
+            sf[k] = v        # the transit registry has its own (equivalent) trace functions
+    reg.percent_json = True      # '%d' % json: TypeError unless it is a number; f"{json}" formats the Python value
+    reg.nt_strict_attrs = True   # RelayV1Hint has no .priority / .hostname: AttributeError
+    install_endpoint_models(reg)
+
+
+def install_endpoint_models(reg):
+    """Twisted endpoint constructors, isIPAddress/isIPv6Address and Tor.stream_via as boundary models: each *proves* at the
+    call that the host is a str and the port a genuine int (the trusted contract of those library functions is stated for
+    (str, int) only), records the dial target and returns an Endpoint object carrying it"""
+    em = reg.ext_models
+    reg.class_fields["Endpoint"] = {"kind": "str", "host": "json", "port": "json"}
+
+    def need(it, what, host, port=None):
+        hz = to_json(it.force(host))
+        it.ctx.prove(J.is_jstr(hz), f"{what}.host-is-str", {"kind": "call-requires", "src": f"{what}: the host argument is a str"})
+        if port is not None:
+            pz = to_json(it.force(port))
+            it.ctx.prove(J.is_jint(pz), f"{what}.port-is-int", {"kind": "call-requires",
+                                                                 "src": f"{what}: the port argument is an int, not a bool"})
+
+    def is_ip(name):
+        def f(it, args, kw):
+            need(it, name, args[0])
+            return VBool(uf(name, J, BoolS)(to_json(it.force(args[0]))))
+        return f
+
+    em["twisted.internet.abstract.isIPAddress"] = is_ip("isIPAddress")
+    em["twisted.internet.abstract.isIPv6Address"] = is_ip("isIPv6Address")
+
+    def endpoint(kind, cname):
+        def f(it, args, kw):
+            need(it, cname, args[1], args[2])
+            ep = VObj("Endpoint", {"kind": VStr(kind), "host": args[1], "port": args[2]})
+            it.ctx.event("endpoint", VStr(kind), args[1], args[2], ep)
+            return ep
+        return f
+
+    em["twisted.internet.endpoints.TCP4ClientEndpoint"] = endpoint("tcp4", "TCP4ClientEndpoint")
+    em["twisted.internet.endpoints.TCP6ClientEndpoint"] = endpoint("tcp6", "TCP6ClientEndpoint")
+    em["twisted.internet.endpoints.HostnameEndpoint"] = endpoint("hostname", "HostnameEndpoint")
+
+    def stream_via(it, recv, meth, args, kwargs, fr):
+        need(it, "Tor.stream_via", args[0], args[1])
+        if it.ctx.choose([z3.BoolVal(True), z3.BoolVal(True)], "Tor.stream_via") == 1:
+            it.raise_("ValueError", VStr("non-public address"))
+        ep = VObj("Endpoint", {"kind": VStr("tor"), "host": args[0], "port": args[1]})
+        it.ctx.event("endpoint", VStr("tor"), args[0], args[1], ep)
+        return ep
+
+    reg.boundary["Tor.stream_via"] = stream_via
+
+    def defer_later(it, args, kw):
+        """task.deferLater(reactor, delay, f, *args): recorded; the call happens later, from the reactor"""
+        it.ctx.event("bcall", "task", "deferLater", list(args), dict(kw))
+        d = it.fresh(DEFERRED, "deferLater")
+        it.ctx.event("new-deferred", d)
+        return d
+
+    em["twisted.internet.task.deferLater"] = defer_later
 
 
 TCP_ENSURES = [("only-valid-hints", "result is None or valid_hint(result)"),
@@ -189,6 +348,79 @@ CONTRACTS = [
              self_fields={"_connector": "obj[Connector]"}, requires=["isinstance(hint_message, dict)"],
              ensures=[("only-valid-to-connector", "input_calls('got_hints') == 1 and all_valid_any(input_arg('got_hints', 0, 0))")],
              note="hint_message is the decoded 'connection-hints' dilation message: a dict with arbitrary other content"),
+    Contract("wormhole/_hints.py:endpoint_from_hint_obj", props=[PROP],
+             params={"hint": SOMEHINT, "tor": "opt[obj[Tor]]", "reactor": "obj[Reactor]"},
+             requires=["valid_any_hint(hint)"], returns="opt[obj[Endpoint]]",
+             ensures=[("supported-type-only",
+                       "implies(result is not None, isinstance(hint, DirectTCPV1Hint) or (tor is not None and isinstance(hint, TorTCPV1Hint)))"),
+                      ("same-target", "implies(result is not None, result.host == hint.hostname and result.port == hint.port)"),
+                      ("direct-hint-without-tor-is-dialled", "implies(tor is None and isinstance(hint, DirectTCPV1Hint), result is not None)")],
+             internal_ensures=[("at-most-one-endpoint", "n_events('endpoint') <= 1 and (n_events('endpoint') == 1) == (result is not None)")],
+             note="an endpoint is built only for a Direct hint (or a Direct/Tor hint through Tor), with exactly the hint's "
+                  "hostname and port; the library calls get a str and a genuine int (proved at each call); Tor's ValueError "
+                  "for an unroutable address is caught"),
+    Contract("wormhole/_hints.py:describe_hint_obj", props=[PROP],
+             params={"hint": SOMEHINT, "relay": "bool", "tor": "opt[obj[Tor]]"},
+             requires=["valid_any_hint(hint)"], returns="str",
+             ensures=[("describes-without-raising", "len(result) > 0")],
+             note="'%s:%d' needs a genuine int port: no TypeError for any hint that passed the parser"),
+    Contract(CON + "_schedule_connection", props=[PROP], params={"delay": "real", "h": HINT, "is_relay": "bool"},
+             self_fields=CONNECTOR_FIELDS, requires=["valid_hint(h)"], modifies=["_pending_connectors"],
+             internal_ensures=[
+                 ("one-attempt-scheduled-for-exactly-this-hint",
+                  "bcalls('deferLater') == 1 and n_calls('endpoint_from_hint_obj') == 1 and call_arg('endpoint_from_hint_obj', 0, 0) == h and "
+                  "call_arg('endpoint_from_hint_obj', 0, 1) is self._tor and "
+                  "is_method_of(bcall_arg('deferLater', 0, 2), self, '_connect') and bcall_arg('deferLater', 0, 1) == delay and "
+                  "bcall_arg('deferLater', 0, 3) is call_result('endpoint_from_hint_obj') and bcall_arg('deferLater', 0, 5) == is_relay"),
+                 ("attempt-is-tracked-for-cancellation",
+                  f"forall(lambda x: (x in self._pending_connectors) == (x in old(self._pending_connectors) or x == new_deferred()), '{DEFERRED}')"),
+                 ("no-connect-scheduled-without-an-endpoint", "bcall_arg('deferLater', 0, 3) is not None")],
+             note="h passed the parser (call-site precondition, proved in _use_hints); the endpoint comes from "
+                  "endpoint_from_hint_obj (by contract)"),
+    Contract(CON + "_connect", props=[PROP], params={"ep": "opt[obj[Endpoint]]", "description": "str", "is_relay": "bool"},
+             self_fields=CONNECTOR_FIELDS, requires=["is_hex16(self._side)"], returns=DEFERRED,
+             raises_exactly={"AttributeError": "ep is None"},
+             internal_ensures=[("dials-exactly-the-given-endpoint",
+                                "bcalls('connect') == 1 and bcall_arg('connect', 0, 0) is ep and "
+                                "(bcall_arg('connect', 0, 1)._relay_handshake is not None) == is_relay")],
+             note="the deferred call that _schedule_connection arms: raises (inside the reactor, logged by the errback chain) "
+                  "exactly when it was scheduled without an endpoint"),
+    Contract(CON + "_use_hints", props=[PROP], params={"hints": f"seq[{SOMEHINT}]"}, self_fields=CONNECTOR_FIELDS,
+             requires=["all_valid_any(hints)"], modifies=["_pending_connectors"],
+             internal_ensures=[("status-reported-once", "bcalls('_hint_status') == 1")],
+             loops={0: {"header": "for h in hints", "retype": {"relays": "seq[nt[RelayV1Hint]]"},
+                        "invariant": ["all_valid_any(relays)", "buckets_valid(direct)", "keys_numeric(direct)"]},
+                    1: {"header": "for p in priorities", "retype": {"hint_status": "seq[opaque[DilationHint]]"},
+                        "modifies": [("self", "_pending_connectors")],
+                        "invariant": ["all_valid_any(relays)", "buckets_valid(direct)"]},
+                    2: {"header": "for h in direct[p]", "modifies": [("self", "_pending_connectors")],
+                        "invariant": ["all_valid(_iter)"],
+                        "body_ensures": [
+                            "implies(isinstance(h, TorTCPV1Hint) and self._tor is None, iter_n_calls('_schedule_connection') == 0)",
+                            "implies(not (isinstance(h, TorTCPV1Hint) and self._tor is None), iter_n_calls('_schedule_connection') == 1 "
+                            "and iter_call_arg('_schedule_connection', 0, 2) == h and not iter_call_arg('_schedule_connection', 0, 3))"]},
+                    3: {"header": "for r in relays", "modifies": [("self", "_pending_connectors")],
+                        "invariant": ["all_valid_any(relays)"]},
+                    4: {"header": "for h in r.hints", "modifies": [("self", "_pending_connectors")],
+                        "invariant": ["all_valid(_iter)"],
+                        "body_ensures": ["iter_n_calls('_schedule_connection') == 1 and iter_call_arg('_schedule_connection', 0, 2) == h "
+                                         "and iter_call_arg('_schedule_connection', 0, 3)"]}},
+             note="for any list of hint objects that passed the parser: nothing raises (grouping by priority, sorted() over the "
+                  "priorities); every _schedule_connection gets a parsed hint (its precondition, proved at both call sites); a "
+                  "Tor hint is not dialled directly without Tor; every other direct hint and every relay sub-hint is scheduled "
+                  "exactly once, with the right is_relay flag"),
+    Contract(CON + "got_hints", props=[PROP], params={"hint_objs": f"seq[{SOMEHINT}]"},
+             self_fields={"__state": "state", **CONNECTOR_FIELDS},
+             requires=["all_valid_any(hint_objs)"], modifies=["_pending_connectors"],
+             raises_exactly={"NoTransition": "in_state(self, 'stopped')"},
+             ensures=[("state-kept", "state_of(self) == old(state_of(self))")],
+             internal_ensures=[("dials-only-while-connecting", "n_calls('_use_hints') == ite(in_state(self, 'connecting'), 1, 0) and "
+                                                               "implies(n_calls('_use_hints') == 1, call_arg('_use_hints', 0, 1) == hint_objs)"),
+                               ("once-connected-hints-are-ignored", "implies(in_state(self, 'connected'), len(bcall_names()) == 0 and "
+                                                                    "self._pending_connectors == old(self._pending_connectors))")],
+             note="the Automat input through the real transition table: in 'connecting' exactly _use_hints(hint_objs) (by contract) "
+                  "runs, in 'connected' nothing; a stopped Connector has no row (NoTransition, Automat's own behaviour: that the "
+                  "Manager never feeds a stopped Connector is C11's business)"),
     Contract("lemma:roundtrip_tcp", props=[PROP], params={"h": HINT}, source_module="wormhole/_hints.py",
              source_text="""
              def roundtrip_tcp(h):
@@ -199,13 +431,79 @@ CONTRACTS = [
 ]
 
 
+for _c in CONTRACTS:
+    if _c.target == CON + "_use_hints":
+        _c.qf_feasibility = True     # quantified invariants: branch pruning without them (keeps more paths, never fewer)
+
+
+CONTRACTS.append(
+    Contract("lemma:roundtrip_relay_single", props=[PROP], params={"h0": "nt[DirectTCPV1Hint]"}, source_module="wormhole/_hints.py",
+             source_text="""
+             def roundtrip_relay_single(h0):
+                 return parse_hint(encode_hint(RelayV1Hint(hints=(h0,))))
+             """,
+             requires=["valid_hint(h0)"],
+             ensures=[("relay-hint-parses-back-to-the-same-target",
+                       "isinstance(result, RelayV1Hint) and len(result.hints) == 1 and implies(len(result.hints) == 1, result.hints[0] == h0)")],
+             note="the relay hints this side produces carry exactly one Direct sub-hint (Common.__init__ / "
+                  "Connector.__attrs_post_init__ build RelayV1Hint(hints=(relay_hint,)) from parse_hint_argv): encode_hint's "
+                  "relay branch (inlined, real loop) followed by parse_hint (parse_tcp_v1_hint by contract) gives it back"))
+
+
+def regf_automat():
+    """the Connector's machine is dispatched through its real transition table"""
+    from pyvc.automat import AutomatSupport
+    reg = regf()
+    reg.input_as_boundary = False
+    reg.automat = AutomatSupport()
+    reg.automat.notransition_raises = True
+
+    def state_of(it, obj):
+        return it.force(obj).fields["__state"]
+
+    reg.spec_funcs["state_of"] = state_of
+    return reg
+
+
+def regf_inline_parse_hint():
+    """the relay round trip runs the real parse_hint (its relay branch), with parse_tcp_v1_hint by contract"""
+    reg = regf()
+    del reg.contracts["wormhole/_hints.py:parse_hint"]
+    return reg
+
+
 def tasks():
-    return [ContractTask(c, regf) for c in CONTRACTS]
+    special = {CON + "got_hints": regf_automat, "lemma:roundtrip_relay_single": regf_inline_parse_hint}
+    return [ContractTask(c, special.get(c.target, regf)) for c in CONTRACTS]
 
 
 TRUSTED = ["z3/cvc5", "pyvc semantics of the Python subset incl. the JSON sort (bool is a subclass of int; .get/[]/in/iteration "
-           "raise AttributeError/KeyError/TypeError exactly as CPython does on the wrong variant)",
-           "sorted() model (same members; TypeError iff incomparable priorities possible)",
-           "Twisted endpoint constructors accept (str, int)"]
-ASSUMPTIONS = ["JSON floats are reals", "Connector.got_hints is an Automat input treated as a boundary here",
-               "Connector._use_hints (grouping by priority) is not under contract yet"]
+           "raise AttributeError/KeyError/TypeError exactly as CPython does on the wrong variant; '%d' % x raises TypeError unless x "
+           "is a number; str()/f-string of a JSON value never raises)",
+           "sorted() model (same members, every element a member of the sorted set; TypeError iff two or more elements and some "
+           "priority/key is not a number); collections.defaultdict(list) as a map priority -> list of hint objects",
+           "Twisted: TCP4ClientEndpoint / TCP6ClientEndpoint / HostnameEndpoint(reactor, host, port), isIPAddress / isIPv6Address(host) "
+           "and Tor.stream_via(host, port) accept a str host and an int port (each call site PROVES its arguments are such); "
+           "stream_via may raise ValueError; task.deferLater and endpoint.connect return a new Deferred and call nothing back "
+           "synchronously; Deferred.addErrback/addCallback are recorded events",
+           "HKDF returns bytes (the relay handshake text is not C20's business)"]
+ASSUMPTIONS = ["JSON floats are reals; a priority 1 and a priority 1.0 are distinct dictionary keys in the model (equal keys in "
+               "CPython): affects only how hints are grouped, not whether anything raises",
+               "Manager.use_hints: Connector.got_hints is recorded as an event there (the argument is proved to hold only parsed "
+               "hints); Connector.got_hints itself is verified through the real Automat table with exactly that precondition. "
+               "Manager.rx_HINTS (the Manager's own machine) is not under contract here: C11/C17 own the Manager machine",
+               "Connector.got_hints in state 'stopped' raises NoTransition (Automat); that the Manager does not feed a stopped "
+               "Connector is not decided here",
+               "the relay hints this side configures (transit_relay / _transit_relays, from parse_hint_argv) are taken as parsed "
+               "hint objects: an unparseable --transit-helper string yields RelayV1Hint((None,)), which is own configuration, not "
+               "peer input",
+               "Connector._connect requires the 16-hex-digit side this Connector was constructed with",
+               "OPEN (defect candidate, reproduced natively): Connector._schedule_connection schedules _connect(None, ..) when "
+               "endpoint_from_hint_obj returns None (a relay-v1 hint whose sub-hint is tor-tcp-v1 on a client without Tor, or an "
+               "address Tor refuses): AttributeError inside the reactor, logged by the errback chain; obligation "
+               "_schedule_connection.ensures.no-connect-scheduled-without-an-endpoint is left failing",
+               "not under contract: Common.get_connection_hints / _get_direct_hints (inlineCallbacks + listener set-up: this side's own "
+               "addresses), Connector._publish_hints / Manager.send_hints (encode side of the dilation hints: encode_hint is "
+               "covered by the two round-trip lemmas, the list comprehension around it is not); the relay round trip is proved for "
+               "the one-sub-hint relay hints this side builds, not for arbitrary RelayV1Hint values (encode_hint writes every "
+               "sub-hint as direct-tcp-v1)"]
